@@ -9,6 +9,7 @@ import z3
 from . import core
 from .core import SBool, SNum, Sym, conj, ite, mk, mkb, rat
 
+PAIRWISE = True   # instantiate strict monotonicity against every earlier argument (quadratic in the number of arguments)
 LOG = z3.Function('LOG', z3.RealSort(), z3.RealSort())
 EXP = z3.Function('EXP', z3.RealSort(), z3.RealSort())
 MAXF = Fraction(int(float.fromhex('0x1.fffffffffffffp+1023')))  # largest finite binary64
@@ -61,8 +62,9 @@ def sexp(v):
     for a in args:
         if a.eq(t):
             return SNum(EXP(t))
-    fs = [EXP(t) > 0, EXP(t) >= t + 1, z3.Implies(t == 0, EXP(t) == 1)]
-    for a in args:
+    fs = [EXP(t) > 0, EXP(t) >= t + 1, z3.Implies(t == 0, EXP(t) == 1),
+          z3.Implies(t <= 1, EXP(t) <= z3.RealVal('272/100')), z3.Implies(t <= 0, EXP(t) <= 1)]   # e < 2.72
+    for a in (args if PAIRWISE else []):
         fs.append(z3.Implies(a < t, EXP(a) < EXP(t)))
         fs.append(z3.Implies(t < a, EXP(t) < EXP(a)))
     _facts(*fs)
